@@ -10,6 +10,7 @@ Trusted glue.
 -/
 import CtrlVerif.Driver.Mat
 import CtrlVerif.Model.Flat
+import CtrlVerif.Driver.FlatMulti
 
 namespace CtrlVerif.Driver.Flat
 
@@ -95,6 +96,11 @@ def run : P String := do
     | .error e => set ([] : List String); pure (showFErr e)
     | .ok L => runOps L ""
 
-def handle (toks : List String) : String := runLine run toks
+/-- `flat multi …` is a user-defined flat system with several flat outputs
+(`Driver/FlatMulti.lean`); everything else is a linear SISO system. -/
+def handle (toks : List String) : String :=
+  match toks with
+  | "multi" :: rest => FlatMulti.handle rest
+  | _ => runLine run toks
 
 end CtrlVerif.Driver.Flat
